@@ -1,6 +1,6 @@
 //go:build verif
 
-package hpke
+package hpke_test
 
 // C07 unit randsource: the environment-answer dimension of the sender's randomness source.
 // RFC 9180: enc and everything below it are functions of the encapsulation randomness ikmE.
@@ -12,6 +12,7 @@ import (
 	"bytes"
 	"errors"
 	"fmt"
+	. "github.com/cloudflare/circl/hpke"
 	"io"
 	"testing"
 
@@ -102,11 +103,11 @@ func c07Chunkings(n int) []c07Chunking {
 
 func c07CallSR(snd *Sender, mode byte, psk, pskID []byte, skS kem.PrivateKey, rnd io.Reader) ([]byte, Sealer, error) {
 	switch mode {
-	case modeBase:
+	case c07MBase:
 		return snd.Setup(rnd)
-	case modePSK:
+	case c07MPSK:
 		return snd.SetupPSK(rnd, psk, pskID)
-	case modeAuth:
+	case c07MAuth:
 		return snd.SetupAuth(rnd, skS)
 	default:
 		return snd.SetupAuthPSK(rnd, skS, psk, pskID)
@@ -129,11 +130,11 @@ func TestVerifC07_randsource(t *testing.T) {
 	}
 	var jobs []job
 	for _, s := range c07AllSuites() {
-		if !r.Thorough() && !(s.kdfID == KDF_HKDF_SHA256 && s.aeadID == AEAD_AES128GCM) {
+		if !r.Thorough() && !(c07D(s) == KDF_HKDF_SHA256 && c07A(s) == AEAD_AES128GCM) {
 			continue
 		}
 		for _, m := range c07Modes {
-			if c07IsAuth(m) && !c07IsDHKEM(s.kemID) {
+			if c07IsAuth(m) && !c07IsDHKEM(c07K(s)) {
 				continue
 			}
 			jobs = append(jobs, job{s, m})
@@ -148,7 +149,7 @@ func TestVerifC07_randsource(t *testing.T) {
 	col := &c07Collector{}
 	verifmc.ParallelFor(len(jobs), func(ji int) {
 		j := jobs[ji]
-		k := j.suite.kemID
+		k := c07K(j.suite)
 		sch := k.Scheme()
 		kn := c07KEMName(k)
 		tag := c07SuiteName(j.suite) + "|" + c07ModeNames[j.mode]
